@@ -139,6 +139,16 @@ def main():
     facts.append("Definition guess_map_size_checked : bool := %s." %
                  ("true" if len(re.findall(r"check_anon_map_size\(\s*&?result_mapping", vu)) >= 2 else "false"))
 
+    pr = strip_comments(read_nontest("process.rs"))
+    need(r"fn\s+get_child_result", pr, "process::get_child_result")
+    facts.append("Definition child_result_must_be_object : bool := %s." %
+                 ("true" if re.search(r"is_object\s*\(", pr) else "false"))
+    guard = re.search(r"impl\s+Drop\s+for\s+(\w+)", pr)
+    guard_used = bool(guard and re.search(r"let\s+_\w*\s*=\s*%s\s*[\(\{]" % guard.group(1), pr))
+    facts.append("Definition process_group_guard_present : bool := %s." % ("true" if guard_used else "false"))
+    facts.append("Definition stderr_logged_lossily : bool := %s." %
+                 ("true" if (re.search(r"from_utf8_lossy", pr) and not re.search(r"String::from_utf8\([^)]*\)\s*\.unwrap\(\)", pr)) else "false"))
+
     dr = strip_comments(read_nontest("detailed_report.rs"))
     m = need(r'fn\s+get_csv_header_row\(\)\s*->\s*&\'static\s+str\s*\{\s*"([^"]*)"', dr, "CSV header")
     facts.append('Definition csv_header : string := "%s".' % m.group(1).replace("\\n", ""))
